@@ -66,6 +66,9 @@ def _run(p, orders=None):
     return matprob.extract(out, p, orders=orders)
 
 
+_CUR = {"p": None}  # the canonical problem of the running case (for the float comparisons' noise floor)
+
+
 def _compare(label, ref, got, orders, exact_both, mag, order_map=None):
     names = ("H_tilde", "U", "U_inv")
     for name, A, B in zip(names, ref, got):
@@ -80,7 +83,8 @@ def _compare(label, ref, got, orders, exact_both, mag, order_map=None):
                 a = _floats({0: A[n]})[0]
                 b = _floats({0: B[m]})[0]
                 err = float(np.max(np.abs(a - b), initial=0.0))
-                if not err <= 1e-9 * max(1.0, mag):
+                floor = oracles.noise_floor(_CUR["p"], n, even_if_exact=True) if _CUR.get("p") is not None else 0.0
+                if not err <= 1e-9 * max(1.0, mag) + floor:
                     raise Violation(f"encoding '{label}': {name}_{n} differs from the canonical encoding by {err:.3e}")
 
 
@@ -126,6 +130,7 @@ def run_formats(spec):
 
     rng = rng_for(14, spec["rs"])
     p = matprob.build(spec)  # exact base problem, design indices, dict container, sympy values
+    _CUR["p"] = p
     counters = Counter()
     orders = p.orders
     n_par = p.n_par
